@@ -15,6 +15,16 @@ let option_map f = function
 | Some a -> Some (f a)
 | None -> None
 
+(** val fst : ('a1 * 'a2) -> 'a1 **)
+
+let fst = function
+| (x, _) -> x
+
+(** val snd : ('a1 * 'a2) -> 'a2 **)
+
+let snd = function
+| (_, y) -> y
+
 (** val length : 'a1 list -> nat **)
 
 let rec length = function
@@ -50,6 +60,11 @@ let rec sub n0 m =
   | S k -> (match m with
             | O -> n0
             | S l -> sub k l)
+
+(** val eqb : bool -> bool -> bool **)
+
+let eqb b1 b2 =
+  if b1 then b2 else if b2 then false else true
 
 module Nat =
  struct
@@ -99,6 +114,43 @@ let rec nth_error l = function
 | S n1 -> (match l with
            | [] -> None
            | _ :: l0 -> nth_error l0 n1)
+
+(** val map : ('a1 -> 'a2) -> 'a1 list -> 'a2 list **)
+
+let rec map f = function
+| [] -> []
+| a :: t -> (f a) :: (map f t)
+
+(** val flat_map : ('a1 -> 'a2 list) -> 'a1 list -> 'a2 list **)
+
+let rec flat_map f = function
+| [] -> []
+| x :: t -> app (f x) (flat_map f t)
+
+(** val fold_left : ('a1 -> 'a2 -> 'a1) -> 'a2 list -> 'a1 -> 'a1 **)
+
+let rec fold_left f l a0 =
+  match l with
+  | [] -> a0
+  | b :: t -> fold_left f t (f a0 b)
+
+(** val fold_right : ('a2 -> 'a1 -> 'a1) -> 'a1 -> 'a2 list -> 'a1 **)
+
+let rec fold_right f a0 = function
+| [] -> a0
+| b :: t -> f b (fold_right f a0 t)
+
+(** val forallb : ('a1 -> bool) -> 'a1 list -> bool **)
+
+let rec forallb f = function
+| [] -> true
+| a :: l0 -> (&&) (f a) (forallb f l0)
+
+(** val filter : ('a1 -> bool) -> 'a1 list -> 'a1 list **)
+
+let rec filter f = function
+| [] -> []
+| x :: l0 -> if f x then x :: (filter f l0) else filter f l0
 
 (** val firstn : nat -> 'a1 list -> 'a1 list **)
 
@@ -259,20 +311,20 @@ module Coq_Pos =
 
   (** val compare_cont : comparison -> positive -> positive -> comparison **)
 
-  let rec compare_cont r x y =
+  let rec compare_cont r0 x y =
     match x with
     | XI p ->
       (match y with
-       | XI q -> compare_cont r p q
+       | XI q -> compare_cont r0 p q
        | XO q -> compare_cont Gt p q
        | XH -> Gt)
     | XO p ->
       (match y with
        | XI q -> compare_cont Lt p q
-       | XO q -> compare_cont r p q
+       | XO q -> compare_cont r0 p q
        | XH -> Gt)
     | XH -> (match y with
-             | XH -> r
+             | XH -> r0
              | _ -> Lt)
 
   (** val compare : positive -> positive -> comparison **)
@@ -400,12 +452,12 @@ module N =
   let rec pos_div_eucl a b =
     match a with
     | XI a' ->
-      let (q, r) = pos_div_eucl a' b in
-      let r' = succ_double r in
+      let (q, r0) = pos_div_eucl a' b in
+      let r' = succ_double r0 in
       if leb b r' then ((succ_double q), (sub r' b)) else ((double q), r')
     | XO a' ->
-      let (q, r) = pos_div_eucl a' b in
-      let r' = double r in
+      let (q, r0) = pos_div_eucl a' b in
+      let r' = double r0 in
       if leb b r' then ((succ_double q), (sub r' b)) else ((double q), r')
     | XH ->
       (match b with
@@ -444,8 +496,8 @@ type 'a res =
 
 (** val bind : 'a1 res -> ('a1 -> 'a2 res) -> 'a2 res **)
 
-let bind r f =
-  match r with
+let bind r0 f =
+  match r0 with
   | Ok a -> f a
   | Panic s -> Panic s
 
@@ -642,8 +694,9 @@ let free_to s to0 =
   else bind (idx s.buffer s.start site_free_index) (fun b0 ->
          if N.ltb to0 b0
          then Ok s
-         else bind (free_loop s.buffer s.cap to0 s.count O s.start) (fun r ->
-                let (i, ix) = r in
+         else bind (free_loop s.buffer s.cap to0 s.count O s.start)
+                (fun r0 ->
+                let (i, ix) = r0 in
                 let cnt = sub s.count i in
                 if Nat.eqb cnt O
                 then (match s.incoming_cap with
@@ -768,3 +821,807 @@ let run_inflights = function
        (XI (XO (XI XH)))))))))))))))))))) :: []
    | c :: ops ->
      run_ops (N.eqb mode (Npos XH)) (new0 (N.to_nat c)) (decode_ops ops))
+
+type idset = n list
+
+(** val mem : n -> n list -> bool **)
+
+let rec mem x = function
+| [] -> false
+| y :: t -> (||) (N.eqb x y) (mem x t)
+
+(** val insert : n -> idset -> idset **)
+
+let rec insert x s = match s with
+| [] -> x :: []
+| y :: t ->
+  if N.ltb x y then x :: s else if N.eqb x y then s else y :: (insert x t)
+
+(** val remove : n -> idset -> idset **)
+
+let rec remove x = function
+| [] -> []
+| y :: t -> if N.eqb x y then remove x t else y :: (remove x t)
+
+(** val union : idset -> idset -> idset **)
+
+let union a b =
+  fold_right insert a b
+
+(** val is_empty : idset -> bool **)
+
+let is_empty = function
+| [] -> true
+| _ :: _ -> false
+
+(** val diff : idset -> idset -> idset **)
+
+let diff a b =
+  filter (fun x -> negb (mem x b)) a
+
+(** val symdiff_count : idset -> idset -> nat **)
+
+let symdiff_count a b =
+  add (length (diff a b)) (length (diff b a))
+
+(** val list_eqb : n list -> n list -> bool **)
+
+let rec list_eqb a b =
+  match a with
+  | [] -> (match b with
+           | [] -> true
+           | _ :: _ -> false)
+  | x :: a' ->
+    (match b with
+     | [] -> false
+     | y :: b' -> (&&) (N.eqb x y) (list_eqb a' b'))
+
+type err = n
+
+type 'a r =
+| ROk of 'a
+| RErr of err
+
+(** val rbind : 'a1 r -> ('a1 -> 'a2 r) -> 'a2 r **)
+
+let rbind r0 f =
+  match r0 with
+  | ROk a -> f a
+  | RErr e -> RErr e
+
+(** val e_no_progress_voter : err **)
+
+let e_no_progress_voter =
+  Npos (XI (XO (XO (XO (XI (XI (XO (XI (XO (XO XH))))))))))
+
+(** val e_no_progress_learner : err **)
+
+let e_no_progress_learner =
+  Npos (XO (XI (XO (XO (XI (XI (XO (XI (XO (XO XH))))))))))
+
+(** val e_learner_outgoing : err **)
+
+let e_learner_outgoing =
+  Npos (XI (XI (XO (XO (XI (XI (XO (XI (XO (XO XH))))))))))
+
+(** val e_learner_incoming : err **)
+
+let e_learner_incoming =
+  Npos (XO (XO (XI (XO (XI (XI (XO (XI (XO (XO XH))))))))))
+
+(** val e_no_progress_next : err **)
+
+let e_no_progress_next =
+  Npos (XI (XO (XI (XO (XI (XI (XO (XI (XO (XO XH))))))))))
+
+(** val e_next_not_outgoing : err **)
+
+let e_next_not_outgoing =
+  Npos (XO (XI (XI (XO (XI (XI (XO (XI (XO (XO XH))))))))))
+
+(** val e_next_nonjoint : err **)
+
+let e_next_nonjoint =
+  Npos (XI (XI (XI (XO (XI (XI (XO (XI (XO (XO XH))))))))))
+
+(** val e_autoleave_nonjoint : err **)
+
+let e_autoleave_nonjoint =
+  Npos (XO (XO (XO (XI (XI (XI (XO (XI (XO (XO XH))))))))))
+
+(** val e_already_joint : err **)
+
+let e_already_joint =
+  Npos (XI (XO (XO (XI (XI (XI (XO (XI (XO (XO XH))))))))))
+
+(** val e_zero_voter_joint : err **)
+
+let e_zero_voter_joint =
+  Npos (XO (XI (XO (XI (XI (XI (XO (XI (XO (XO XH))))))))))
+
+(** val e_leave_nonjoint : err **)
+
+let e_leave_nonjoint =
+  Npos (XI (XI (XO (XI (XI (XI (XO (XI (XO (XO XH))))))))))
+
+(** val e_not_joint : err **)
+
+let e_not_joint =
+  Npos (XO (XO (XI (XI (XI (XI (XO (XI (XO (XO XH))))))))))
+
+(** val e_simple_in_joint : err **)
+
+let e_simple_in_joint =
+  Npos (XI (XO (XI (XI (XI (XI (XO (XI (XO (XO XH))))))))))
+
+(** val e_more_than_one : err **)
+
+let e_more_than_one =
+  Npos (XO (XI (XI (XI (XI (XI (XO (XI (XO (XO XH))))))))))
+
+(** val e_removed_all : err **)
+
+let e_removed_all =
+  Npos (XI (XI (XI (XI (XI (XI (XO (XI (XO (XO XH))))))))))
+
+(** val site_invalid_restore : site **)
+
+let site_invalid_restore =
+  Npos (XO (XI (XO (XO (XO (XI (XI (XI (XO (XO XH))))))))))
+
+type conf = { incoming : idset; outgoing : idset; learners : idset;
+              learners_next : idset; auto_leave : bool }
+
+(** val empty_conf : conf **)
+
+let empty_conf =
+  { incoming = []; outgoing = []; learners = []; learners_next = [];
+    auto_leave = false }
+
+type cctype =
+| AddNode
+| RemoveNode
+| AddLearnerNode
+
+type ccsingle = cctype * n
+
+type mct =
+| MAdd
+| MRemove
+
+type changes = (n * mct) list
+
+type conf_state = { cs_voters : n list; cs_learners : n list;
+                    cs_voters_outgoing : n list; cs_learners_next : n list;
+                    cs_auto_leave : bool }
+
+(** val last_change : n -> changes -> mct option **)
+
+let rec last_change id = function
+| [] -> None
+| p :: rest ->
+  let (i, t) = p in
+  (match last_change id rest with
+   | Some t' -> Some t'
+   | None -> if N.eqb i id then Some t else None)
+
+(** val contains : idset -> changes -> n -> bool **)
+
+let contains base chs id =
+  match last_change id chs with
+  | Some m -> (match m with
+               | MAdd -> true
+               | MRemove -> false)
+  | None -> mem id base
+
+(** val joint : conf -> bool **)
+
+let joint c =
+  negb (is_empty c.outgoing)
+
+(** val check_learners : conf -> idset -> changes -> n list -> unit r **)
+
+let rec check_learners c base chs = function
+| [] -> ROk ()
+| id :: rest ->
+  if negb (contains base chs id)
+  then RErr e_no_progress_learner
+  else if mem id c.outgoing
+       then RErr e_learner_outgoing
+       else if mem id c.incoming
+            then RErr e_learner_incoming
+            else check_learners c base chs rest
+
+(** val check_learners_next : conf -> idset -> changes -> n list -> unit r **)
+
+let rec check_learners_next c base chs = function
+| [] -> ROk ()
+| id :: rest ->
+  if negb (contains base chs id)
+  then RErr e_no_progress_next
+  else if negb (mem id c.outgoing)
+       then RErr e_next_not_outgoing
+       else check_learners_next c base chs rest
+
+(** val check_invariants : conf -> idset -> changes -> unit r **)
+
+let check_invariants c base chs =
+  if negb (forallb (contains base chs) (app c.incoming c.outgoing))
+  then RErr e_no_progress_voter
+  else rbind (check_learners c base chs c.learners) (fun _ ->
+         rbind (check_learners_next c base chs c.learners_next) (fun _ ->
+           if negb (joint c)
+           then if negb (is_empty c.learners_next)
+                then RErr e_next_nonjoint
+                else if c.auto_leave
+                     then RErr e_autoleave_nonjoint
+                     else ROk ()
+           else ROk ()))
+
+(** val set_incoming : conf -> idset -> conf **)
+
+let set_incoming c s =
+  { incoming = s; outgoing = c.outgoing; learners = c.learners;
+    learners_next = c.learners_next; auto_leave = c.auto_leave }
+
+(** val set_outgoing : conf -> idset -> conf **)
+
+let set_outgoing c s =
+  { incoming = c.incoming; outgoing = s; learners = c.learners;
+    learners_next = c.learners_next; auto_leave = c.auto_leave }
+
+(** val set_learners : conf -> idset -> conf **)
+
+let set_learners c s =
+  { incoming = c.incoming; outgoing = c.outgoing; learners = s;
+    learners_next = c.learners_next; auto_leave = c.auto_leave }
+
+(** val set_auto_leave : conf -> bool -> conf **)
+
+let set_auto_leave c b =
+  { incoming = c.incoming; outgoing = c.outgoing; learners = c.learners;
+    learners_next = c.learners_next; auto_leave = b }
+
+(** val init_progress : conf -> changes -> n -> bool -> conf * changes **)
+
+let init_progress c chs id is_learner =
+  ((if is_learner
+    then set_learners c (insert id c.learners)
+    else set_incoming c (insert id c.incoming)), (app chs ((id, MAdd) :: [])))
+
+(** val make_voter : idset -> conf -> changes -> n -> conf * changes **)
+
+let make_voter base c chs id =
+  if negb (contains base chs id)
+  then init_progress c chs id false
+  else ({ incoming = (insert id c.incoming); outgoing = c.outgoing;
+         learners = (remove id c.learners); learners_next =
+         (remove id c.learners_next); auto_leave = c.auto_leave }, chs)
+
+(** val make_learner : idset -> conf -> changes -> n -> conf * changes **)
+
+let make_learner base c chs id =
+  if negb (contains base chs id)
+  then init_progress c chs id true
+  else if mem id c.learners
+       then (c, chs)
+       else let inc = remove id c.incoming in
+            let lrn = remove id c.learners in
+            let nxt = remove id c.learners_next in
+            if mem id c.outgoing
+            then ({ incoming = inc; outgoing = c.outgoing; learners = lrn;
+                   learners_next = (insert id nxt); auto_leave =
+                   c.auto_leave }, chs)
+            else ({ incoming = inc; outgoing = c.outgoing; learners =
+                   (insert id lrn); learners_next = nxt; auto_leave =
+                   c.auto_leave }, chs)
+
+(** val remove_node : idset -> conf -> changes -> n -> conf * changes **)
+
+let remove_node base c chs id =
+  if negb (contains base chs id)
+  then (c, chs)
+  else ({ incoming = (remove id c.incoming); outgoing = c.outgoing;
+         learners = (remove id c.learners); learners_next =
+         (remove id c.learners_next); auto_leave = c.auto_leave },
+         (if negb (mem id c.outgoing)
+          then app chs ((id, MRemove) :: [])
+          else chs))
+
+(** val apply_one :
+    idset -> (conf * changes) -> ccsingle -> conf * changes **)
+
+let apply_one base st cc =
+  let (c, chs) = st in
+  let (ty, id) = cc in
+  if N.eqb id N0
+  then (c, chs)
+  else (match ty with
+        | AddNode -> make_voter base c chs id
+        | RemoveNode -> remove_node base c chs id
+        | AddLearnerNode -> make_learner base c chs id)
+
+(** val apply_loop :
+    idset -> (conf * changes) -> ccsingle list -> conf * changes **)
+
+let apply_loop base st ccs =
+  fold_left (apply_one base) ccs st
+
+(** val apply_changes :
+    idset -> conf -> changes -> ccsingle list -> (conf * changes) r **)
+
+let apply_changes base c chs ccs =
+  let st = apply_loop base (c, chs) ccs in
+  if is_empty (fst st).incoming then RErr e_removed_all else ROk st
+
+(** val check_and_copy : conf -> idset -> unit r **)
+
+let check_and_copy c base =
+  check_invariants c base []
+
+(** val simple : conf -> idset -> ccsingle list -> (conf * changes) r **)
+
+let simple c base ccs =
+  if joint c
+  then RErr e_simple_in_joint
+  else rbind (check_and_copy c base) (fun _ ->
+         rbind (apply_changes base c [] ccs) (fun st ->
+           let (c', chs) = st in
+           if Nat.ltb (S O) (symdiff_count c'.incoming c.incoming)
+           then RErr e_more_than_one
+           else rbind (check_invariants c' base chs) (fun _ -> ROk (c', chs))))
+
+(** val enter_joint :
+    bool -> conf -> idset -> ccsingle list -> (conf * changes) r **)
+
+let enter_joint al c base ccs =
+  if joint c
+  then RErr e_already_joint
+  else rbind (check_and_copy c base) (fun _ ->
+         if is_empty c.incoming
+         then RErr e_zero_voter_joint
+         else let c1 = set_outgoing c (union c.outgoing c.incoming) in
+              rbind (apply_changes base c1 [] ccs) (fun st ->
+                let (c2, chs) = st in
+                let c3 = set_auto_leave c2 al in
+                rbind (check_invariants c3 base chs) (fun _ -> ROk (c3, chs))))
+
+(** val leave_removals : conf -> changes **)
+
+let leave_removals c =
+  map (fun id -> (id, MRemove))
+    (filter (fun id ->
+      (&&) (negb (mem id c.incoming)) (negb (mem id c.learners))) c.outgoing)
+
+(** val leave_joint : conf -> idset -> (conf * changes) r **)
+
+let leave_joint c base =
+  if negb (joint c)
+  then RErr e_leave_nonjoint
+  else rbind (check_and_copy c base) (fun _ ->
+         if is_empty c.outgoing
+         then RErr e_not_joint
+         else let c1 = { incoming = c.incoming; outgoing = c.outgoing;
+                learners = (union c.learners c.learners_next);
+                learners_next = []; auto_leave = c.auto_leave }
+              in
+              let chs = leave_removals c1 in
+              let c2 = { incoming = c1.incoming; outgoing = []; learners =
+                c1.learners; learners_next = c1.learners_next; auto_leave =
+                false }
+              in
+              rbind (check_invariants c2 base chs) (fun _ -> ROk (c2, chs)))
+
+(** val apply_change : idset -> (n * mct) -> idset **)
+
+let apply_change p ch =
+  match snd ch with
+  | MAdd -> insert (fst ch) p
+  | MRemove -> remove (fst ch) p
+
+(** val apply_conf : idset -> changes -> idset **)
+
+let apply_conf base chs =
+  fold_left apply_change chs base
+
+type tracker = conf * idset
+
+(** val empty_tracker : tracker **)
+
+let empty_tracker =
+  (empty_conf, [])
+
+(** val commit : tracker -> (conf * changes) r -> tracker r **)
+
+let commit t = function
+| ROk a -> let (c', chs) = a in ROk (c', (apply_conf (snd t) chs))
+| RErr e -> RErr e
+
+(** val do_simple : tracker -> ccsingle list -> tracker r **)
+
+let do_simple t ccs =
+  commit t (simple (fst t) (snd t) ccs)
+
+(** val do_enter_joint : bool -> tracker -> ccsingle list -> tracker r **)
+
+let do_enter_joint al t ccs =
+  commit t (enter_joint al (fst t) (snd t) ccs)
+
+(** val do_leave_joint : tracker -> tracker r **)
+
+let do_leave_joint t =
+  commit t (leave_joint (fst t) (snd t))
+
+(** val to_conf_change_single :
+    conf_state -> ccsingle list * ccsingle list **)
+
+let to_conf_change_single cs =
+  let outg = map (fun id -> (AddNode, id)) cs.cs_voters_outgoing in
+  let inc =
+    app (map (fun id -> (RemoveNode, id)) cs.cs_voters_outgoing)
+      (app (map (fun id -> (AddNode, id)) cs.cs_voters)
+        (app (map (fun id -> (AddLearnerNode, id)) cs.cs_learners)
+          (map (fun id -> (AddLearnerNode, id)) cs.cs_learners_next)))
+  in
+  (outg, inc)
+
+(** val simple_each : tracker -> ccsingle list -> tracker r **)
+
+let rec simple_each t = function
+| [] -> ROk t
+| cc :: rest -> rbind (do_simple t (cc :: [])) (fun t' -> simple_each t' rest)
+
+(** val restore : tracker -> conf_state -> tracker r **)
+
+let restore t cs =
+  let (outg, inc) = to_conf_change_single cs in
+  (match outg with
+   | [] -> simple_each t inc
+   | _ :: _ ->
+     rbind (simple_each t outg) (fun t1 ->
+       do_enter_joint cs.cs_auto_leave t1 inc))
+
+(** val to_conf_state : conf -> conf_state **)
+
+let to_conf_state c =
+  { cs_voters = c.incoming; cs_learners = c.learners; cs_voters_outgoing =
+    c.outgoing; cs_learners_next = c.learners_next; cs_auto_leave =
+    c.auto_leave }
+
+(** val eq_without_order : n list -> n list -> bool **)
+
+let eq_without_order l r0 =
+  (&&) (forallb (fun x -> mem x r0) l) (forallb (fun x -> mem x l) r0)
+
+(** val conf_state_eq : conf_state -> conf_state -> bool **)
+
+let conf_state_eq l r0 =
+  (||)
+    ((&&)
+      ((&&)
+        ((&&)
+          ((&&) (list_eqb l.cs_voters r0.cs_voters)
+            (list_eqb l.cs_learners r0.cs_learners))
+          (list_eqb l.cs_voters_outgoing r0.cs_voters_outgoing))
+        (list_eqb l.cs_learners_next r0.cs_learners_next))
+      (eqb l.cs_auto_leave r0.cs_auto_leave))
+    ((&&)
+      ((&&)
+        ((&&)
+          ((&&) (eq_without_order l.cs_voters r0.cs_voters)
+            (eq_without_order l.cs_learners r0.cs_learners))
+          (eq_without_order l.cs_voters_outgoing r0.cs_voters_outgoing))
+        (eq_without_order l.cs_learners_next r0.cs_learners_next))
+      (eqb l.cs_auto_leave r0.cs_auto_leave))
+
+(** val raft_new_restore : conf_state -> tracker r res **)
+
+let raft_new_restore cs =
+  match restore empty_tracker cs with
+  | ROk t ->
+    if conf_state_eq (to_conf_state (fst t)) cs
+    then Ok (ROk t)
+    else Panic site_invalid_restore
+  | RErr e -> Ok (RErr e)
+
+type transition =
+| Auto
+| Implicit
+| Explicit
+
+type ccv2 = { v2_transition : transition; v2_changes : ccsingle list }
+
+(** val v2_enter_joint : ccv2 -> bool option **)
+
+let v2_enter_joint cc =
+  if (||) (negb (match cc.v2_transition with
+                 | Auto -> true
+                 | _ -> false)) (Nat.ltb (S O) (length cc.v2_changes))
+  then (match cc.v2_transition with
+        | Explicit -> Some false
+        | _ -> Some true)
+  else None
+
+(** val v2_leave_joint : ccv2 -> bool **)
+
+let v2_leave_joint cc =
+  (&&) (match cc.v2_transition with
+        | Auto -> true
+        | _ -> false) (match cc.v2_changes with
+                       | [] -> true
+                       | _ :: _ -> false)
+
+(** val v1_into_v2 : cctype -> n -> ccv2 **)
+
+let v1_into_v2 ty id =
+  { v2_transition = Auto; v2_changes = ((ty, id) :: []) }
+
+(** val apply_conf_change : tracker -> ccv2 -> tracker r **)
+
+let apply_conf_change t cc =
+  if v2_leave_joint cc
+  then do_leave_joint t
+  else (match v2_enter_joint cc with
+        | Some al -> do_enter_joint al t cc.v2_changes
+        | None -> do_simple t cc.v2_changes)
+
+(** val dump_tracker : tracker -> n list **)
+
+let dump_tracker t =
+  let c = fst t in
+  app (enc_list c.incoming)
+    (app (enc_list c.outgoing)
+      (app (enc_list c.learners)
+        (app (enc_list c.learners_next)
+          (app ((enc_bool c.auto_leave) :: []) (enc_list (snd t))))))
+
+(** val enc_mct : mct -> n **)
+
+let enc_mct = function
+| MAdd -> N0
+| MRemove -> Npos XH
+
+(** val dump_changes : changes -> n list **)
+
+let dump_changes chs =
+  (N.of_nat (length chs)) :: (flat_map (fun ch ->
+                               (fst ch) :: ((enc_mct (snd ch)) :: [])) chs)
+
+(** val malformed : n list **)
+
+let malformed =
+  (Npos (XO (XO (XO (XI (XI (XI (XO (XO (XO (XO (XO (XO (XI (XO (XO (XI (XI
+    (XO (XI XH)))))))))))))))))))) :: []
+
+(** val take_list : n list -> (n list * n list) option **)
+
+let take_list = function
+| [] -> None
+| n0 :: rest ->
+  let k = N.to_nat n0 in
+  if Nat.ltb (length rest) k
+  then None
+  else Some ((firstn k rest), (skipn k rest))
+
+(** val dec_type : n -> cctype option **)
+
+let dec_type = function
+| N0 -> Some AddNode
+| Npos p ->
+  (match p with
+   | XI _ -> None
+   | XO p0 -> (match p0 with
+               | XH -> Some AddLearnerNode
+               | _ -> None)
+   | XH -> Some RemoveNode)
+
+(** val dec_trans : n -> transition option **)
+
+let dec_trans = function
+| N0 -> Some Auto
+| Npos p ->
+  (match p with
+   | XI _ -> None
+   | XO p0 -> (match p0 with
+               | XH -> Some Explicit
+               | _ -> None)
+   | XH -> Some Implicit)
+
+(** val take_pairs : nat -> n list -> (ccsingle list * n list) option **)
+
+let rec take_pairs k l =
+  match k with
+  | O -> Some ([], l)
+  | S k' ->
+    (match l with
+     | [] -> None
+     | ty :: l0 ->
+       (match l0 with
+        | [] -> None
+        | id :: rest ->
+          (match dec_type ty with
+           | Some t ->
+             (match take_pairs k' rest with
+              | Some p -> let (ps, rest') = p in Some (((t, id) :: ps), rest')
+              | None -> None)
+           | None -> None)))
+
+(** val take_ccs : n list -> (ccsingle list * n list) option **)
+
+let take_ccs = function
+| [] -> None
+| n0 :: rest -> take_pairs (N.to_nat n0) rest
+
+(** val take_cs : n list -> (conf_state * n list) option **)
+
+let take_cs l =
+  match take_list l with
+  | Some p ->
+    let (v, l1) = p in
+    (match take_list l1 with
+     | Some p0 ->
+       let (lr, l2) = p0 in
+       (match take_list l2 with
+        | Some p1 ->
+          let (o, l3) = p1 in
+          (match take_list l3 with
+           | Some p2 ->
+             let (ln, l0) = p2 in
+             (match l0 with
+              | [] -> None
+              | al :: l4 ->
+                Some ({ cs_voters = v; cs_learners = lr; cs_voters_outgoing =
+                  o; cs_learners_next = ln; cs_auto_leave =
+                  (negb (N.eqb al N0)) }, l4))
+           | None -> None)
+        | None -> None)
+     | None -> None)
+  | None -> None
+
+(** val enc_restore : tracker r res -> n list **)
+
+let enc_restore = function
+| Ok a -> (match a with
+           | ROk t -> N0 :: (dump_tracker t)
+           | RErr e -> e :: [])
+| Panic s ->
+  (Npos (XI (XI (XI (XI (XI (XI (XO (XO (XO (XI (XO (XO (XO (XO (XI (XO (XI
+    (XI (XI XH)))))))))))))))))))) :: (s :: [])
+
+(** val changer_step : tracker -> (conf * changes) r -> tracker * n list **)
+
+let changer_step t = function
+| ROk a ->
+  let (c', chs) = a in
+  let t' = (c', (apply_conf (snd t) chs)) in
+  (t', (N0 :: (app (dump_tracker t') (dump_changes chs))))
+| RErr e -> (t, (e :: []))
+
+(** val v2_step : tracker -> ccv2 -> tracker * n list **)
+
+let v2_step t cc =
+  let cls =
+    (enc_bool (v2_leave_joint cc)) :: (enc_opt
+                                        (option_map enc_bool
+                                          (v2_enter_joint cc)))
+  in
+  (match apply_conf_change t cc with
+   | ROk t' -> (t', (app cls (N0 :: (dump_tracker t'))))
+   | RErr e -> (t, (app cls (e :: []))))
+
+(** val run_ops0 : nat -> tracker -> n list -> n list **)
+
+let rec run_ops0 fuel t l =
+  match fuel with
+  | O -> []
+  | S fuel' ->
+    (match l with
+     | [] -> []
+     | n0 :: rest ->
+       (match n0 with
+        | N0 -> malformed
+        | Npos p ->
+          (match p with
+           | XI p0 ->
+             (match p0 with
+              | XI p1 ->
+                (match p1 with
+                 | XH ->
+                   (match rest with
+                    | [] -> malformed
+                    | ty :: l0 ->
+                      (match l0 with
+                       | [] -> malformed
+                       | id :: rest0 ->
+                         (match dec_type ty with
+                          | Some ty' ->
+                            let (t', out) = v2_step t (v1_into_v2 ty' id) in
+                            app out (run_ops0 fuel' t' rest0)
+                          | None -> malformed)))
+                 | _ -> malformed)
+              | XO p1 ->
+                (match p1 with
+                 | XH ->
+                   (match rest with
+                    | [] -> malformed
+                    | id :: rest0 ->
+                      let t' = ((fst t), (remove id (snd t))) in
+                      app (dump_tracker t') (run_ops0 fuel' t' rest0))
+                 | _ -> malformed)
+              | XH ->
+                let (t', out) = changer_step t (leave_joint (fst t) (snd t))
+                in
+                app out (run_ops0 fuel' t' rest))
+           | XO p0 ->
+             (match p0 with
+              | XI p1 ->
+                (match p1 with
+                 | XH ->
+                   (match rest with
+                    | [] -> malformed
+                    | tr :: rest0 ->
+                      (match dec_trans tr with
+                       | Some tr' ->
+                         (match take_ccs rest0 with
+                          | Some p2 ->
+                            let (ccs, rest') = p2 in
+                            let (t', out) =
+                              v2_step t { v2_transition = tr'; v2_changes =
+                                ccs }
+                            in
+                            app out (run_ops0 fuel' t' rest')
+                          | None -> malformed)
+                       | None -> malformed))
+                 | _ -> malformed)
+              | XO p1 ->
+                (match p1 with
+                 | XH ->
+                   app
+                     (enc_restore (raft_new_restore (to_conf_state (fst t))))
+                     (run_ops0 fuel' t rest)
+                 | _ -> malformed)
+              | XH ->
+                (match rest with
+                 | [] -> malformed
+                 | al :: rest0 ->
+                   (match take_ccs rest0 with
+                    | Some p1 ->
+                      let (ccs, rest') = p1 in
+                      let (t', out) =
+                        changer_step t
+                          (enter_joint (negb (N.eqb al N0)) (fst t) (snd t)
+                            ccs)
+                      in
+                      app out (run_ops0 fuel' t' rest')
+                    | None -> malformed)))
+           | XH ->
+             (match take_ccs rest with
+              | Some p0 ->
+                let (ccs, rest') = p0 in
+                let (t', out) = changer_step t (simple (fst t) (snd t) ccs) in
+                app out (run_ops0 fuel' t' rest')
+              | None -> malformed))))
+
+(** val run_confchange : n list -> n list **)
+
+let run_confchange = function
+| [] -> malformed
+| n0 :: rest ->
+  (match n0 with
+   | N0 -> run_ops0 (length rest) empty_tracker rest
+   | Npos p ->
+     (match p with
+      | XH ->
+        (match take_cs rest with
+         | Some p0 ->
+           let (cs, ops) = p0 in
+           let r0 = raft_new_restore cs in
+           app (enc_restore r0)
+             (match r0 with
+              | Ok a ->
+                (match a with
+                 | ROk t -> run_ops0 (length ops) t ops
+                 | RErr _ -> [])
+              | Panic _ -> [])
+         | None -> malformed)
+      | _ -> malformed))
